@@ -365,8 +365,73 @@ func c15RaceMain() {
 	fmt.Printf("{\"iterations\":%d}\n", it)
 }
 
+// tableSweep: for EVERY record type named in the tree's normalizations.yaml, compound
+// events "that record first + a SYSCALL" with different syscalls are produced one after
+// the other and each earlier event is re-inspected after every later one.  This is what
+// exposes table slices with spare capacity (append into the shared global backing array)
+// for whichever row has them.
+func tableSweep(run *ev.Run) {
+	b, err := os.ReadFile(ev.Repo() + "/aucoalesce/normalizations.yaml")
+	if err != nil {
+		run.Errorf("normalizations.yaml: %v", err)
+		return
+	}
+	_, recs, err := aucoalesce.LoadNormalizationConfig(b)
+	if err != nil {
+		run.Errorf("normalizations.yaml does not load: %v", err)
+		return
+	}
+	var types []string
+	for r := range recs {
+		if _, err := auparse.GetAuditMessageType(r); err == nil {
+			types = append(types, r)
+		}
+	}
+	sort.Strings(types)
+	syscalls := []int{2 /*open*/, 90 /*chmod*/, 42 /*connect*/, 59 /*execve*/, 87 /*unlink*/, 165 /*mount*/, 105 /*setuid*/, 39 /*getpid*/}
+	var n, ops int64
+	for _, rt := range types {
+		type held struct {
+			e    *aucoalesce.Event
+			snap string
+			nr   int
+		}
+		var evs []*held
+		for round := 0; round < 2; round++ {
+			for _, nr := range syscalls {
+				lines := []string{
+					fmt.Sprintf("type=%s msg=audit(1492037400.000:%d): pid=1 uid=0 auid=1000 ses=3 op=x acct=\"a\" exe=\"/x\" hostname=h addr=1.2.3.4 terminal=t res=success", rt, 900+nr),
+					fmt.Sprintf("type=SYSCALL msg=audit(1492037400.000:%d): arch=c000003e syscall=%d success=yes exit=0 a0=1 a1=2 a2=3 a3=4 items=0 ppid=1 pid=2 auid=1000 uid=0 gid=0 euid=0 suid=0 fsuid=0 egid=0 sgid=0 fsgid=0 tty=pts0 ses=3 comm=\"c\" exe=\"/x\" key=(null)", 900+nr, nr),
+				}
+				e, cerr := aucoalesce.CoalesceMessages(parseGroup(lines))
+				ops++
+				if e == nil {
+					continue
+				}
+				fe, _ := aucoalesce.CoalesceMessages(parseGroup(lines))
+				if evSnap(e, cerr) != evSnap(fe, cerr) {
+					run.Report(ev.Violation{Sig: "C15 recoalesce-differs", What: fmt.Sprintf("record type %s + syscall %d: two coalesces of the same lines differ:\n  %s\n  %s", rt, nr, evSnap(e, nil), evSnap(fe, nil)), Replay: lines})
+				}
+				evs = append(evs, &held{e, evSnap(e, nil), nr})
+				for _, h := range evs {
+					if s := evSnap(h.e, nil); s != h.snap {
+						run.Report(ev.Violation{Sig: "C15 earlier-event-altered", What: fmt.Sprintf("record type %s: the event produced with syscall %d changed after a later event with syscall %d was produced:\n  %s\n->\n  %s", rt, h.nr, nr, h.snap, s), Replay: map[string]interface{}{"record_type": rt, "first_syscall": h.nr, "later_syscall": nr}})
+						h.snap = s
+					}
+				}
+				n++
+			}
+		}
+	}
+	run.Add("traces_validated_against_impl", int64(len(types)))
+	run.Add("transitions", ops)
+	run.Set("table_sweep_record_types", len(types))
+	run.Set("table_sweep_events", n)
+}
+
 func checkC15(tier, raceBin string) int {
 	run := ev.Begin("C15", tier, "model_checking")
+	tableSweep(run)
 	maxLen := 3
 	if tier == "thorough" {
 		maxLen = 4
